@@ -15,6 +15,7 @@ SIG_GLOB = "sdn.parse.rejects.glob-characters-in-escaped-identifier"
 SIG_PORT_ATTRS = "sdn.parse.port-declaration-attributes-dropped"
 SIG_MULTI = "sdn.parse.multi-name-wire-declaration.range-and-attributes-reach-first-name-only"
 SIG_ASC = "sdn.parse.ascending-range.read-as-descending"
+SIG_POS_EXTRA = "sdn.parse.accepts.positional-map-longer-than-declared-port-list"
 
 SIG_C04_EMPTY_BB = "compose-then-parse.rejects.portless-primitive-written-as-empty-celldefine-module"
 SIG_C04_ASSIGN = "compose.raises.assign-wider-than-one-bit"
